@@ -19,6 +19,7 @@ import Logrange.Generated.C13
 * `pos <s>` → `ok <cid> <idx>` | `err` | `panic`;  `statepos <s>` → `ok <jrnl>=<cid>.<idx>…` | `err` | `panic`
 * `f.value <fields> <name>` · `f.items <fields>` · `f.check <fields>` · `f.build (<part> <trimmed> <unquoted|!|=>)*`
 * `nest <budget> <text>` → `ok <depth>` | `err` (refused by the nesting guard, when /repo has one) | `panic` (stack budget exhausted)
+* `nest.hole <text>` → `1` | `0`: the class of F25b (the byte-scan guard lets the text pass, its token nesting exceeds the limit)
 * `fmt.parse <fstr>` → `ok <field>…` (`ts:<layout>` `msg:<arg>` `var:<name>` `vars` `const:<text>`) | `err` | `panic`; `strings.ToLower`
   is ASCII lower-casing here (the harness only compares format strings on which the two agree)
 -/
@@ -153,6 +154,7 @@ def step (_ : Unit) (toks : List String) : Unit × String :=
      | .err => "err"
      | .panic _ => "panic"
      | .outOfFuel => "fuel")
+  | ["nest.hole", s] => if Nesting.holeClass Logrange.Generated.C13.lqlMaxNesting (unhex s) then "1" else "0"
   | ["fmt.parse", f] =>
     let lower : Bytes → Bytes := fun b => b.map fun c => if 65 ≤ c.toNat ∧ c.toNat ≤ 90 then UInt8.ofNat (c.toNat + 32) else c
     (match Format.parse lower (unhex f) with
